@@ -12,8 +12,12 @@ from .oracle import DIR_SUFFIX, H, canonical_dir_bytes, closure_problems, list_s
 class Scenario:
     """A populated source cache, a destination, and a closed request."""
 
-    def __init__(self, ctx, rng, d, dest_kind=None, ntrees=None, allow_missing=False, extra_files=True, wide=0):
+    def __init__(self, ctx, rng, d, dest_kind=None, ntrees=None, allow_missing=False, extra_files=True, wide=0, legacy=False):
         self.ctx, self.rng, self.d = ctx, rng, d
+        # legacy: source, staging, request ids (and, through dest_cfg, the destination) all use the text-normalising md5 of old repositories
+        self.algo = "md5-dos2unix" if legacy else "md5"
+        if legacy:
+            self.dest_cfg = {"hash_name": self.algo}
         self.src_root = os.path.join(d, "src")
         self.dest_root = os.path.join(d, "dest")
         self.ws = os.path.join(d, "ws")
@@ -23,7 +27,7 @@ class Scenario:
         pool = [gen.small_content(rng) for _ in range(rng.randrange(1, 5))]
         if rng.random() < 0.4:
             pool.append(gen.mined_00(rng))
-        self.src = env.local_odb(self.src_root)
+        self.src = env.local_odb(self.src_root, **({"hash_name": self.algo} if legacy else {}))
         self.trees = []  # dicts: oid, listing {rel: md5}, hi
         ntrees = ntrees if ntrees is not None else rng.randrange(1, 5)
         self.blobs = {}  # md5 -> bytes
@@ -46,9 +50,9 @@ class Scenario:
             _st, _m, obj, r = env.stage_and_transfer(self.src, p)
             if r.failed:
                 raise env.HarnessError("population transfer failed")
-            listing = {"/".join(k): H("md5", v) for k, v in files.items()}
+            listing = {"/".join(k): H(self.algo, v) for k, v in files.items()}
             for k, v in files.items():
-                self.blobs[H("md5", v)] = v
+                self.blobs[H(self.algo, v)] = v
             self.trees.append({"oid": obj.hash_info.value, "listing": listing, "hi": obj.hash_info})
             raw = canonical_dir_bytes(listing)
             self.blobs[obj.hash_info.value] = raw
@@ -115,11 +119,11 @@ class Scenario:
                     # request ids as dvc's used-object collection hands them over: carrying the name of the path they came from
                     from dvc_data.hashfile.hash_info import HashInfo as _HI
 
-                    ids |= {_HI("md5", v, obj_name=f"data/{rel}") for rel, v in t["listing"].items()}
+                    ids |= {_HI(self.algo, v, obj_name=f"data/{rel}") for rel, v in t["listing"].items()}
                 else:
-                    ids |= {env.HI("md5", v) for v in t["listing"].values()}
+                    ids |= {env.HI(self.algo, v) for v in t["listing"].values()}
         for o in self.single_files:
-            ids.add(env.HI("md5", o))
+            ids.add(env.HI(self.algo, o))
             denoted.add(o)
         return ids, (not expanded), denoted
 
@@ -249,7 +253,7 @@ def ok_bytes(sc, oid, data):
     """Is `data` the right content for `oid`?"""
     if oid.endswith(DIR_SUFFIX):
         return H("md5", data) + DIR_SUFFIX == oid
-    return H("md5", data) == oid
+    return H(sc.algo, data) == oid
 
 
 __all__ = [
